@@ -22,6 +22,39 @@ impl ::core::ops::DerefMut for Bx { fn deref_mut(&mut self) -> &mut Inner { &mut
 #[derive(Debug, PartialEq, Clone)] pub struct Tbl(pub Vec<u32>);
 impl ::core::ops::Index<Key> for Tbl { type Output = u32; fn index(&self, k: Key) -> &u32 { &self.0[self.0.len() - 1 - k.0] } }
 impl ::core::ops::IndexMut<Key> for Tbl { fn index_mut(&mut self, k: Key) -> &mut u32 { let n = self.0.len(); &mut self.0[n - 1 - k.0] } }
+/// a collection whose trait impls forward to the inner Vec
+#[derive(Debug, PartialEq, Clone)] pub struct Bag(pub Vec<u32>);
+impl IntoIterator for Bag { type Item = u32; type IntoIter = ::std::vec::IntoIter<u32>; fn into_iter(self) -> Self::IntoIter { IntoIterator::into_iter(self.0) } }
+impl<'a> IntoIterator for &'a Bag { type Item = &'a u32; type IntoIter = ::core::slice::Iter<'a, u32>; fn into_iter(self) -> Self::IntoIter { self.0.iter() } }
+impl<'a> IntoIterator for &'a mut Bag { type Item = &'a mut u32; type IntoIter = ::core::slice::IterMut<'a, u32>; fn into_iter(self) -> Self::IntoIter { self.0.iter_mut() } }
+/// unsized field types whose own AsRef<Self>/AsMut<Self> are NOT the identity (they skip the first byte / return a decoy)
+#[repr(transparent)] pub struct Tag(pub str);
+impl Tag { pub fn new(s: &str) -> &Tag { unsafe { &*(s as *const str as *const Tag) } } pub fn new_mut(s: &mut str) -> &mut Tag { unsafe { &mut *(s as *mut str as *mut Tag) } } }
+impl AsRef<Tag> for Tag { fn as_ref(&self) -> &Tag { Tag::new(&self.0[1..]) } }
+impl AsMut<Tag> for Tag { fn as_mut(&mut self) -> &mut Tag { Tag::new_mut(&mut self.0[1..]) } }
+impl AsRef<str> for Tag { fn as_ref(&self) -> &str { &self.0[2..] } }
+impl AsMut<str> for Tag { fn as_mut(&mut self) -> &mut str { &mut self.0[2..] } }
+pub type Label = Tag;
+pub trait Shape { fn sides(&self) -> u32; }
+pub struct Sq; impl Shape for Sq { fn sides(&self) -> u32 { 4 } }
+pub struct Tri; impl Shape for Tri { fn sides(&self) -> u32 { 3 } }
+pub static TRI: Tri = Tri;
+impl AsRef<dyn Shape> for dyn Shape { fn as_ref(&self) -> &(dyn Shape + 'static) { &TRI } }
+impl AsMut<dyn Shape> for dyn Shape { fn as_mut(&mut self) -> &mut (dyn Shape + 'static) { Box::leak(Box::new(Tri)) } }
+pub type DynAlias = dyn Shape;
+pub fn fat(t: &Tag) -> (usize, usize) { (t.0.as_ptr() as usize, t.0.len()) }
+// DECOYS: inherent methods named like the delegated traits' methods, same signatures, doing something else.  Method-call
+// syntax (`field.deref()`) prefers them; the fully qualified call the property demands (`Deref::deref(&field)`) never sees them.
+#[allow(clippy::should_implement_trait)]
+impl Bx { pub fn deref(&self) -> &Inner { &DECOY } pub fn deref_mut(&mut self) -> &mut Inner { Box::leak(Box::new(inner(998))) } }
+#[allow(clippy::should_implement_trait)]
+impl Inner { pub fn as_ref(&self) -> &Target { &DECOY.other } pub fn as_mut(&mut self) -> &mut Target { Box::leak(Box::new(Target(997))) }
+             pub fn deref(&self) -> &Inner { &DECOY } pub fn deref_mut(&mut self) -> &mut Inner { Box::leak(Box::new(inner(995))) } }
+#[allow(clippy::should_implement_trait)]
+impl Tbl { pub fn index(&self, _: Key) -> &u32 { &DECOY.a } pub fn index_mut(&mut self, _: Key) -> &mut u32 { Box::leak(Box::new(996)) } }
+#[allow(clippy::should_implement_trait)]
+impl Bag { pub fn into_iter(self) -> ::std::vec::IntoIter<u32> { let mut v = self.0; v.reverse(); IntoIterator::into_iter(v) }
+           pub fn iter(&self) -> ::core::iter::Rev<::core::slice::Iter<'_, u32>> { self.0.iter().rev() } }
 '''
 
 
@@ -221,7 +254,26 @@ pub fn run(r: &mut R) {
             body += ["s[%s] = 4242;" % w, 'r.eq("write through IndexMut is visible in the field", %s[%s], 4242);' % (st.fld(), w)]
             add("Index+IndexMut " + cont, st, sa + sa2, fam, ["Index", "IndexMut"], body)
         # ---------------- IntoIterator
-        for refs in ("", "owned, ref, ref_mut", "ref", "ref_mut, owned"):
+        for refs, cont in itertools.product(("", "owned, ref, ref_mut", "ref", "ref_mut, owned"), ("Vec<u32>", "Bag")):
+            if cont == "Bag":
+                # a field type with decoy inherent `into_iter` / `iter`: compare with its trait impls, called by full path
+                st = St(n, sel, named, same, "Bag", lambda i: "Bag(vec![%d, %d, %d])" % (i * 10 + 1, i * 10 + 2, i * 10 + 3))
+                if refs and mode == "ignore_others":
+                    sa = []
+                    fa = {i: "#[into_iterator(ignore)]" for i in range(n) if i != sel}
+                    fa[sel] = "#[into_iterator(%s)]" % refs
+                else:
+                    sa, fa = selection_attrs("into_iterator", st, mode, refs)
+                body = ["let mut s: SS = %s;" % st.ctor()]
+                has = lambda k: (not refs and k == "owned") or (k in [x.strip() for x in refs.split(",")])
+                if has("owned"):
+                    body += ['r.eq("owned iteration = the field\'s own IntoIterator impl", IntoIterator::into_iter(s.clone()).collect::<Vec<u32>>(), <Bag as IntoIterator>::into_iter(%s.clone()).collect::<Vec<u32>>());' % st.fld()]
+                if has("ref"):
+                    body += ['r.eq("shared iteration = the field\'s own impl for &Bag", IntoIterator::into_iter(&s).map(|x| adr(x)).collect::<Vec<_>>(), <&Bag as IntoIterator>::into_iter(&%s).map(|x| adr(x)).collect::<Vec<_>>());' % st.fld()]
+                if has("ref_mut"):
+                    body += ['{ let want = <&Bag as IntoIterator>::into_iter(&%s).map(|x| adr(x)).collect::<Vec<_>>(); r.eq("mutable iteration = the field\'s own impl for &mut Bag", IntoIterator::into_iter(&mut s).map(|x| adr(&*x)).collect::<Vec<_>>(), want); }' % st.fld()]
+                add("IntoIterator (field type with inherent into_iter) " + (refs or "default"), st, sa, fa, ["IntoIterator"], body)
+                continue
             st = St(n, sel, named, same, "Vec<u32>", lambda i: "vec![%d, %d, %d]" % (i * 10 + 1, i * 10 + 2, i * 10 + 3))
             if refs and mode == "ignore_others":
                 sa = []
@@ -242,6 +294,53 @@ pub fn run(r: &mut R) {
             if has("owned") and has("ref"):
                 body += ['r.eq("owned and shared forms visit the same elements in the same order", (&s).into_iter().cloned().collect::<Vec<u32>>(), s.clone().into_iter().collect::<Vec<u32>>());']
             add("IntoIterator " + (refs or "default"), st, sa, fa, ["IntoIterator"], body)
+    # ---------------- unsized field types: "the field itself" also when the field's type has no size
+    for spelled, desc in (("Label", "own type under an alias"), ("Tag", "own type literally"), (None, "direct")):
+        for named in (False, True):
+            a = ("#[as_ref(%s)] #[as_mut(%s)] " % (spelled, spelled)) if spelled else ""
+            decl = ("pub struct U { %spub t: Tag }" % a) if named else ("pub struct U(%spub Tag);" % a)
+            f = "t" if named else "0"
+            mod = """use super::*;
+#[derive(derive_more::AsRef, derive_more::AsMut)] #[repr(transparent)] %s
+fn mk(s: &mut str) -> &mut U { unsafe { &mut *(s as *mut str as *mut U) } }
+pub fn run(r: &mut R) {
+    let mut buf = String::from("#abc");
+    let u = mk(&mut buf);
+    let want = fat(&u.%s);
+    r.eq("AsRef<Tag> of an unsized field is the field itself (address and length)", fat(<U as AsRef<Tag>>::as_ref(u)), want);
+    r.eq("AsMut<Tag> of an unsized field is the field itself (address and length)", fat(<U as AsMut<Tag>>::as_mut(u)), want);
+    <U as AsMut<Tag>>::as_mut(u).0.make_ascii_uppercase();
+    r.eq("write through AsMut reaches the whole field", u.%s.0.to_string(), String::from("#ABC"));
+}""" % (decl, f, f)
+            cases.append(Case("c%d" % len(cases), mod, meta={"derive": "AsRef+AsMut unsized str newtype, " + desc, "src": "#[derive(AsRef, AsMut)] " + decl}))
+    # (the field is spelled `dyn Shape + 'static`: with the bound left implicit the derived signature `-> &dyn Shape` gets the
+    # reference's lifetime as object bound and rustc rejects the impl - a limitation outside what the documentation promises)
+    for spelled, desc in (("DynAlias", "own type under an alias"), ("dyn Shape + 'static", "own type literally"), (None, "direct")):
+        a = ("#[as_ref(%s)] #[as_mut(%s)] " % (spelled, spelled)) if spelled else ""
+        decl = "pub struct D(%spub dyn Shape + 'static);" % a
+        mod = """use super::*;
+#[derive(derive_more::AsRef, derive_more::AsMut)] #[repr(transparent)] %s
+fn mk<'a>(s: &'a mut (dyn Shape + 'static)) -> &'a mut D { unsafe { &mut *(s as *mut dyn Shape as *mut D) } }
+pub fn run(r: &mut R) {
+    let mut sq = Sq;
+    let d = mk(&mut sq);
+    let want = adr(&d.0);
+    r.eq("AsRef<dyn Shape> of a trait-object field is the field itself", (adr(<D as AsRef<dyn Shape>>::as_ref(d)), <D as AsRef<dyn Shape>>::as_ref(d).sides()), (want, 4));
+    r.eq("AsMut<dyn Shape> of a trait-object field is the field itself", (adr(<D as AsMut<dyn Shape>>::as_mut(d)), <D as AsMut<dyn Shape>>::as_mut(d).sides()), (want, 4));
+}""" % decl
+        cases.append(Case("c%d" % len(cases), mod, meta={"derive": "AsRef+AsMut trait-object field, " + desc, "src": "#[derive(AsRef, AsMut)] " + decl}))
+    # forwarding to a foreign type from an unsized field
+    mod = """use super::*;
+#[derive(derive_more::AsRef, derive_more::AsMut)] #[repr(transparent)] pub struct U(#[as_ref(str)] #[as_mut(str)] pub Tag);
+fn mk(s: &mut str) -> &mut U { unsafe { &mut *(s as *mut str as *mut U) } }
+pub fn run(r: &mut R) {
+    let mut buf = String::from("#abc");
+    let u = mk(&mut buf);
+    let want = (<Tag as AsRef<str>>::as_ref(&u.0).as_ptr() as usize, 2usize);
+    r.eq("AsRef<str> forwards to the unsized field's own impl", (<U as AsRef<str>>::as_ref(u).as_ptr() as usize, <U as AsRef<str>>::as_ref(u).len()), want);
+    r.eq("AsMut<str> forwards to the unsized field's own impl", (<U as AsMut<str>>::as_mut(u).as_ptr() as usize, <U as AsMut<str>>::as_mut(u).len()), want);
+}"""
+    cases.append(Case("c%d" % len(cases), mod, meta={"derive": "AsRef+AsMut unsized field, listed foreign type", "src": "#[derive(AsRef, AsMut)] struct U(#[as_ref(str)] #[as_mut(str)] Tag);"}))
     # raw identifier field names
     for d, attr in (("Deref", "deref"), ("AsRef", "as_ref")):
         st = St(2, 1, True, False, "Inner", lambda i: "inner(%d)" % (10 * (i + 1)), raw=True)
